@@ -12,6 +12,8 @@
 #include <string>
 #include <vector>
 #include <sstream>
+#include <map>
+#include <memory>
 #include <fstream>
 #include <iostream>
 #include <algorithm>
@@ -55,7 +57,7 @@ struct Suf { string name; int kind; vector<double> vals; };
 struct SolSuf { string name; int kind; vector<std::pair<int,double>> ent; };
 
 struct Case {
-  string id; int api, text, comments, flags, n;
+  string id; int session, mode, api, text, comments, flags, n;
   bool hasT; vector<int> types; vector<double> lb, ub;
   int sense; double c0; bool hasC; vector<double> c;
   int qfmt; vector<size_t> qstart; vector<int> qidx; vector<double> qval;
@@ -70,7 +72,7 @@ struct Case {
 static Case parse(Tok& k) {
   Case c;
   if (k.s() != "C") throw std::runtime_error("bad case");
-  c.id = k.s(); c.api = k.i(); c.text = k.i(); c.comments = k.i(); c.flags = k.i(); c.n = k.i();
+  c.id = k.s(); c.session = k.i(); c.mode = k.i(); c.api = k.i(); c.text = k.i(); c.comments = k.i(); c.flags = k.i(); c.n = k.i();
   c.hasT = k.i();
   if (c.hasT) for (int j = 0; j < c.n; ++j) c.types.push_back(k.i());
   for (int j = 0; j < c.n; ++j) c.lb.push_back(k.d());
@@ -227,7 +229,19 @@ static void print_solution(std::ostream& o, const string& id, int solve_result, 
   if (have_obj == 2) o << id << " sol obj crash\n";
 }
 
+// A session = objects that outlive one model: one mp::NLSolver (owns PreprocessData pd_), one C solver,
+// and one PreprocessData handed to NLModel::WriteNL.  session 0 = fresh objects for this case.
+struct Session {
+  std::unique_ptr<mp::NLSolver> nls;
+  NLW2_NLSolver_C cs{}; bool has_cs = false;
+  mp::NLModel::PreprocessData pd;
+};
+static std::map<int, Session> g_sessions;
+static string g_fakesolver;   // script: cp "$3" "$1.sol"  (invoked as <solver> <stub> -AMPL <opts>)
+
 static void run_case(const Case& c, const string& wd, std::ostream& o) {
+  Session local_session;
+  Session& S = c.session ? g_sessions[c.session] : local_session;
   const string& id = c.id;
   string stub = wd + "/" + id;
   for (const char* ext : {".nl", ".col", ".row", ".sol"}) std::remove((stub + ext).c_str());
@@ -262,18 +276,29 @@ static void run_case(const Case& c, const string& wd, std::ostream& o) {
   }
   // ---- permutation exported by NLModel::WriteNL
   mp::NLUtils ut;
-  mp::NLModel::PreprocessData pd;
+  mp::NLModel::PreprocessData& pd = S.pd;
   string werr = mdl2.WriteNL(stub + "w", opts, ut, pd);
   o << id << " perm"; for (int v : pd.vperm_) o << " " << v; o << "\n";
   o << id << " inv"; for (int v : pd.vperm_inv_) o << " " << v; o << "\n";
 
   // ---- load through NLSolver (C++ or C API)
-  mp::NLSolver nls;
-  NLW2_NLModel_C cm{}; NLW2_NLSolver_C cs{};
+  if (!S.nls) S.nls.reset(new mp::NLSolver);
+  mp::NLSolver& nls = *S.nls;
+  NLW2_NLModel_C cm{}; NLW2_NLSolver_C& cs = S.cs;
   bool loaded;
+  // mode 0: LoadModel, then ReadSolution;  mode 1: NLSolver::Solve(model, solver, opts) with a fake solver that
+  // delivers the prepared .sol;  mode 2: the same without SetFileStub (automatic temporary stub)
+  string rstub = stub, presol = stub + ".presol";
+  auto write_solution = [&](const string& fn) {
+    if (c.solbin == 2) { SolAdapter sa(c); mp::WriteSolFile(fn, sa); } else write_sol_text(c, fn);
+  };
+  if (c.mode) write_solution(presol);
+  mp::NLSolution cpp_sol; NLW2_NLSolution_C c_sol{};
   if (c.api == 0) {
-    nls.SetFileStub(stub); nls.SetNLOptions(opts);
-    loaded = nls.LoadModel(static_cast<const mp::NLModel&>(mdl2));
+    if (c.mode != 2) nls.SetFileStub(stub);
+    nls.SetNLOptions(opts);
+    if (c.mode == 0) loaded = nls.LoadModel(static_cast<const mp::NLModel&>(mdl2));
+    else { cpp_sol = nls.Solve(mdl2, g_fakesolver, presol); loaded = (bool)cpp_sol; rstub = nls.GetFileStub(); }
   } else {
     cm = NLW2_MakeNLModel_C(probname.c_str());
     NLW2_SetCols_C(&cm, c.n, c.lb.data(), c.ub.data(), c.hasT ? c.types.data() : nullptr);
@@ -291,9 +316,32 @@ static void run_case(const Case& c, const string& wd, std::ostream& o) {
       sc.numval_ = (int)s.vals.size(); sc.values_ = s.vals.data();
       NLW2_AddSuffix_C(&cm, sc);
     }
-    cs = NLW2_MakeNLSolver_C(nullptr);
-    NLW2_SetFileStub_C(&cs, stub.c_str()); NLW2_SetNLOptions_C(&cs, opts);
-    loaded = NLW2_LoadNLModel_C(&cs, &cm);
+    if (!S.has_cs) { cs = NLW2_MakeNLSolver_C(nullptr); S.has_cs = true; }
+    if (c.mode != 2) NLW2_SetFileStub_C(&cs, stub.c_str());
+    NLW2_SetNLOptions_C(&cs, opts);
+    if (c.mode == 0) loaded = NLW2_LoadNLModel_C(&cs, &cm);
+    else { c_sol = NLW2_SolveNLModel_C(&cs, &cm, g_fakesolver.c_str(), presol.c_str()); loaded = c_sol.solve_result_ > -2; rstub = NLW2_GetFileStub_C(&cs); }
+  }
+  // ---- accessors give back what was set (C++ and C)
+  {
+    bool ok = true;
+    NLW2_NLOptionsBasic_C go = c.api == 0 ? nls.GetNLOptions() : NLW2_GetNLOptions_C(&cs);
+    ok = ok && go.n_text_mode_ == opts.n_text_mode_ && go.want_nl_comments_ == opts.want_nl_comments_ && go.flags_ == opts.flags_;
+    ok = ok && mdl2.HessianFormat() == c.qfmt && (c.m == 0 || string(mdl2.RowName(0)) == (c.hasRN ? c.rn[0] : string()));
+    ok = ok && (c.n == 0 || string(mdl2.ColName(0)) == (c.hasCN ? c.cn[0] : string()));
+    if (c.api) {
+      NLW2_ColData_C cd = NLW2_Columns_C(&cm);
+      ok = ok && cd.num_col_ == c.n && cd.lower_ == c.lb.data() && cd.upper_ == c.ub.data() && NLW2_NumCols_C(&cm) == c.n && NLW2_NumRows_C(&cm) == c.m;
+      ok = ok && NLW2_ColNames_C(&cm) == (c.hasCN ? cn.data() : nullptr) && NLW2_RowNames_C(&cm) == (c.hasRN ? rn.data() : nullptr);
+      ok = ok && (c.n == 0 || string(NLW2_ColName_C(&cm, c.n - 1)) == (c.hasCN ? c.cn[c.n - 1] : string()));
+      ok = ok && (c.m == 0 || string(NLW2_RowName_C(&cm, c.m - 1)) == (c.hasRN ? c.rn[c.m - 1] : string()));
+      NLW2_SparseMatrix_C A = NLW2_GetA_C(&cm), Q = NLW2_Hessian_C(&cm);
+      ok = ok && A.num_nz_ == c.aidx.size() && A.index_ == c.aidx.data() && Q.num_nz_ == c.qidx.size() && Q.value_ == c.qval.data();
+      ok = ok && NLW2_HessianFormat_C(&cm) == c.qfmt && NLW2_ObjSense_C(&cm) == c.sense && NLW2_ObjOffset_C(&cm) == c.c0;
+      ok = ok && NLW2_ObjCoefficients_C(&cm) == (c.hasC ? c.c.data() : nullptr) && string(NLW2_ObjName_C(&cm)) == c.objname;
+      ok = ok && string(NLW2_ProbName_C(&cm)) == probname && NLW2_RowLowerBounds_C(&cm) == c.rlb.data() && NLW2_RowUpperBounds_C(&cm) == c.rub.data();
+    }
+    o << id << " getters " << (ok ? 1 : 0) << "\n";
   }
   o << id << " load " << (loaded ? 1 : 0) << " " << (werr.empty() ? 1 : 0) << "\n";
 
@@ -301,7 +349,7 @@ static void run_case(const Case& c, const string& wd, std::ostream& o) {
   {
     mp::Problem p; RBHandler h(p);
     string err;
-    try { mp::ReadNLFile(stub + ".nl", h); }
+    try { mp::ReadNLFile(rstub + ".nl", h); }
     catch (const mp::Error& e) { err = string("read-error"); if (std::strstr(e.what(), "too few arguments")) err += ":too-few-arguments"; std::fprintf(stderr, "%s: %s\n", id.c_str(), e.what()); }
     catch (const std::exception& e) { err = "exception"; }
     if (h.got) {
@@ -351,15 +399,29 @@ static void run_case(const Case& c, const string& wd, std::ostream& o) {
   }
   // ---- name files
   {
-    bool ex; auto col = read_lines(stub + ".col", ex);
+    bool ex; auto col = read_lines(rstub + ".col", ex);
     o << id << " colfile " << (ex ? 1 : 0); for (auto& l : col) o << " " << nm(l); o << "\n";
-    auto row = read_lines(stub + ".row", ex);
+    auto row = read_lines(rstub + ".row", ex);
     o << id << " rowfile " << (ex ? 1 : 0); for (auto& l : row) o << " " << nm(l); o << "\n";
   }
   // ---- solution: .sol in NL order -> NLSolver::ReadSolution -> caller order
-  if (loaded) {
-    if (c.solbin == 2) { SolAdapter sa(c); mp::WriteSolFile(stub + ".sol", sa); }
-    else write_sol_text(c, stub + ".sol");
+  if (loaded && c.mode) {
+    // NLSolver::Solve already read the solution and recomputed the objective value
+    if (c.api == 0) {
+      vector<Suf> sufs;
+      for (auto& s : cpp_sol.suffixes_) sufs.push_back({s.name_, s.kind_, s.values_});
+      print_solution(o, id, cpp_sol.solve_result_, cpp_sol.x_, cpp_sol.y_, sufs, cpp_sol.obj_val_, cpp_sol.x_.size() == (size_t)c.n);
+    } else {
+      vector<double> x(c_sol.x_, c_sol.x_ + c_sol.n_primal_values_), y(c_sol.y_, c_sol.y_ + c_sol.n_dual_values_);
+      vector<Suf> sufs;
+      for (int i = 0; i < c_sol.nsuf_; ++i) {
+        auto& s = c_sol.suffixes_[i];
+        sufs.push_back({s.name_, s.kind_, vector<double>(s.values_, s.values_ + s.numval_)});
+      }
+      print_solution(o, id, c_sol.solve_result_, x, y, sufs, c_sol.obj_val_, (int)x.size() == c.n);
+    }
+  } else if (loaded) {
+    write_solution(stub + ".sol");
     if (c.api == 0) {
       mp::NLSolution sol = nls.ReadSolution();
       vector<Suf> sufs;
@@ -382,10 +444,12 @@ static void run_case(const Case& c, const string& wd, std::ostream& o) {
       print_solution(o, id, sol.solve_result_, x, y, sufs, ov, have);
     }
   }
-  if (c.api) { NLW2_DestroyNLSolver_C(&cs); NLW2_DestroyNLModel_C(&cm); }
+  if (loaded) o << id << " sol err " << (string(c.api == 0 ? nls.GetErrorMessage() : NLW2_GetErrorMessage_C(&cs)).empty() ? 0 : 1) << "\n";
+  if (c.api) NLW2_DestroyNLModel_C(&cm);
+  if (!c.session && S.has_cs) { NLW2_DestroyNLSolver_C(&cs); S.has_cs = false; }
   // both writes of the same model must give the same bytes
   {
-    std::ifstream a(stub + ".nl", std::ios::binary), b(stub + "w.nl", std::ios::binary);
+    std::ifstream a(rstub + ".nl", std::ios::binary), b(stub + "w.nl", std::ios::binary);
     std::stringstream sa, sb; sa << a.rdbuf(); sb << b.rdbuf();
     bool same = sa.str() == sb.str();
     // with the C wrapper the dual warm start is routed differently; only report for the C++ API
@@ -394,21 +458,59 @@ static void run_case(const Case& c, const string& wd, std::ostream& o) {
   o << id << " end\n";
 }
 
+// Failure paths of NLSolver that need no model data: ReadSolution before any model was loaded; a stub in a
+// directory that does not exist (nothing can be written): both must report failure, not a solution.
+static void run_probe(const string& wd, std::ostream& o) {
+  double lb[2] = {0, 0}, ub[2] = {1, 1}; const char* names[3] = {"a", "b", nullptr}; double cc[2] = {1, 2};
+  for (int api = 0; api < 2; ++api) {
+    const char* t = api ? "c" : "cpp";
+    NLW2_NLOptionsBasic_C opts = NLW2_MakeNLOptionsBasic_C_Default(); opts.n_text_mode_ = 1;
+    string bad = wd + "/no_such_dir/x";
+    if (api == 0) {
+      mp::NLSolver s; mp::NLSolution r0 = s.ReadSolution();
+      o << "probe " << t << " presol code " << r0.solve_result_ << " nx " << r0.x_.size() << " err " << (std::strlen(s.GetErrorMessage()) ? 1 : 0) << "\n";
+      mp::NLModel m("probe"); m.SetCols({2, lb, ub, nullptr}); m.SetColNames(names); m.SetLinearObjective(NLW2_ObjSenseMinimize, 0, cc);
+      m.SetRows(0, lb, ub, {0, NLW2_MatrixFormatRowwise, 0, nullptr, nullptr, nullptr}); m.SetRowNames(names + 2);
+      s.SetFileStub(bad); s.SetNLOptions(opts);
+      bool l = s.LoadModel(static_cast<const mp::NLModel&>(m));
+      mp::NLUtils ut; mp::NLModel::PreprocessData pd; string w = m.WriteNL(bad, opts, ut, pd);
+      mp::NLSolution r1 = s.ReadSolution();
+      o << "probe " << t << " badstub load " << (l ? 1 : 0) << " werr " << (w.empty() ? 0 : 1) << " err " << (std::strlen(s.GetErrorMessage()) ? 1 : 0)
+        << " code " << r1.solve_result_ << " nx " << r1.x_.size() << " perm " << pd.vperm_.size() << "\n";
+    } else {
+      NLW2_NLSolver_C s = NLW2_MakeNLSolver_C(nullptr); NLW2_NLSolution_C r0 = NLW2_ReadSolution_C(&s);
+      o << "probe " << t << " presol code " << r0.solve_result_ << " nx " << r0.n_primal_values_ << " err " << (std::strlen(NLW2_GetErrorMessage_C(&s)) ? 1 : 0) << "\n";
+      NLW2_NLModel_C m = NLW2_MakeNLModel_C("probe"); NLW2_SetCols_C(&m, 2, lb, ub, nullptr); NLW2_SetColNames_C(&m, names);
+      NLW2_SetLinearObjective_C(&m, NLW2_ObjSenseMinimize, 0, cc);
+      NLW2_SetFileStub_C(&s, bad.c_str()); NLW2_SetNLOptions_C(&s, opts);
+      int l = NLW2_LoadNLModel_C(&s, &m);
+      NLW2_NLSolution_C r1 = NLW2_ReadSolution_C(&s);
+      o << "probe " << t << " badstub load " << (l ? 1 : 0) << " werr 1 err " << (std::strlen(NLW2_GetErrorMessage_C(&s)) ? 1 : 0)
+        << " code " << r1.solve_result_ << " nx " << r1.n_primal_values_ << " perm 2\n";
+      NLW2_DestroyNLSolver_C(&s); NLW2_DestroyNLModel_C(&m);
+    }
+  }
+}
+
 int main(int argc, char** argv) {
   if (argc < 3) { std::fprintf(stderr, "usage: h_easy cases workdir [keep]\n"); return 2; }
   std::ifstream in(argv[1]);
   string wd = argv[2];
   mkdir(wd.c_str(), 0777);
+  g_fakesolver = wd + "/fakesolver.sh";
+  { std::ofstream f(g_fakesolver); f << "#!/bin/sh\ncp \"$3\" \"$1.sol\"\n"; }
+  chmod(g_fakesolver.c_str(), 0755);
   string line;
   while (std::getline(in, line)) {
     if (line.empty() || line[0] == '#') continue;
     Tok k; { std::istringstream ss(line); string w; while (ss >> w) k.t.push_back(w); }
+    if (k.t.size() == 1 && k.t[0] == "P") { std::ostringstream o; run_probe(wd, o); std::cout << o.str() << std::flush; continue; }
     try {
       Case c = parse(k);
       std::ostringstream o;
       run_case(c, wd, o);
       std::cout << o.str() << std::flush;
-      if (argc < 4) for (const char* ext : {".nl", ".col", ".row", ".sol", "w.nl", "w.col", "w.row"}) std::remove((wd + "/" + c.id + ext).c_str());
+      if (argc < 4) for (const char* ext : {".nl", ".col", ".row", ".sol", ".presol", "w.nl", "w.col", "w.row"}) std::remove((wd + "/" + c.id + ext).c_str());
     } catch (const std::exception& e) {
       std::cout << "bad-op " << e.what() << "\n" << std::flush;
     }
